@@ -1,21 +1,26 @@
 #!/usr/bin/env python3
-"""Print the markdown table of seeded breaking changes (seeded/Cxx/mN/meta.json + notes.md first lines)."""
+"""Markdown table of the independent seeded breaking changes (seeded/Cxx/mN/{meta.json,notes.md,patch.diff})."""
 import glob
 import json
 import os
 import re
 
 V = os.path.dirname(os.path.dirname(os.path.abspath(__file__)))
-print("| property | change | what it needs to manifest (from the author's notes) | caught by `./check` |")
-print("|---|---|---|---|")
+print("| property | change | files | what it is (author's notes, first line) | first run | after strengthening (failure kind of the replay) |")
+print("|---|---|---|---|---|---|")
+tot = miss = ok = 0
 for mf in sorted(glob.glob(os.path.join(V, "seeded", "C*", "m*", "meta.json"))):
     m = json.load(open(mf))
     d = os.path.dirname(mf)
     notes = open(os.path.join(d, "notes.md")).read() if os.path.exists(os.path.join(d, "notes.md")) else ""
     files = sorted(set(re.findall(r"^\+\+\+ b/(\S+)", open(os.path.join(d, "patch.diff")).read(), re.M)))
-    need = ""
-    mm = re.search(r"(?is)(needs?[^\n]*\n(?:.*\n){0,3})", notes)
-    if mm:
-        need = " ".join(mm.group(1).split())[:220]
-    st = m.get("status_note") or ("yes (replay)" if m.get("caught") else "NO")
-    print("| %s | %s: %s | %s | %s |" % (m["property"], m["name"], ", ".join(os.path.basename(f) for f in files), need.replace("|", "/"), st))
+    first = next((l.strip("# ").strip() for l in notes.splitlines() if l.strip()), "")[:150].replace("|", "/")
+    chk = m.get("check_result", "")
+    fr = "caught (replay)" if ("VIOLATION" in chk and "no-failing-input-found" not in chk.split(";")[0]) else ("flagged, no failing input" if "VIOLATION" in chk else "MISSED")
+    fin = m.get("caught_by") and ("by ./check %s" % m["caught_by"]) or (("caught: " + (m.get("recheck_first_failure_kind") or "replay")) if m.get("caught_final") else ("caught (replay)" if fr.startswith("caught") else "not re-run"))
+    tot += 1
+    miss += fr != "caught (replay)"
+    ok += bool(m.get("caught_final") or m.get("caught_by") or fr == "caught (replay)")
+    print("| %s | %s | %s | %s | %s | %s |" % (m["property"], m["name"], ", ".join(os.path.basename(f) for f in files), first, fr, fin))
+print()
+print("%d independent changes; %d were missed or flagged without a failing input on the first run; %d of %d are caught with a concrete replay by the checks as committed (recheck columns)." % (tot, miss, ok, tot))
